@@ -184,6 +184,11 @@ type fidRef struct {
 	// opened is protected by pathNode.opMu or renameMu (for write).
 	opened bool
 
+	// openMu serializes Tlopen requests on this fid, so that the check of
+	// opened, the call to file.Open and the update of opened are one step
+	// and the file is opened at most once.
+	openMu sync.Mutex
+
 	// mode is the fidRef's mode from the walk. Only the type bits are
 	// valid, the permissions may change. This is used to sanity check
 	// operations on this element, and prevent walks across
